@@ -164,7 +164,7 @@ class C14(PropertyCheck):
             yield {"tag": "mask_trimmed_array_anypad", "kind": "mask_trim", "image_shape": [ih, iw],
                    "padded_shape": [hp, wp], **_geom_case(rng), "padded": qlist(_values(rng, hp * wp))}
         # 5. longer random chains on larger masks
-        for _ in range(60 if quick else 500):
+        for _ in range(120 if quick else 800):
             h, w = rng.randint(2, 8), rng.randint(2, 8)
             m, mk = gen.random_mask(rng, h, w)
             steps, ch, cw = [], h, w
@@ -195,7 +195,7 @@ class C14(PropertyCheck):
             for margin in (0, 0, 1):
                 m, mk = gen.random_mask(rng, h, w, margin=margin if min(h, w) > 2 * margin else 0)
                 yield self._apply_mask_case(rng, m, kh, kw, f"apply_mask_{'edge' if margin == 0 else 'inner'}")
-        for _ in range(40 if quick else 400):
+        for _ in range(120 if quick else 800):
             h, w = rng.randint(2, 9), rng.randint(2, 9)
             kh, kw = rng.choice((1, 3, 5, 7)), rng.choice((1, 3, 5, 7))
             margin = rng.choice((0, 0, 1, 2))
@@ -210,7 +210,7 @@ class C14(PropertyCheck):
                 masks = masks[off::5]
             for m in masks:
                 yield self._zoom_case(rng, m, rng.choice((0, 1, 1, 2)), "zoom_exh")
-        for _ in range(120 if quick else 1200):
+        for _ in range(250 if quick else 2000):
             h, w = rng.randint(1, 9), rng.randint(1, 11)
             m, mk = gen.random_mask(rng, h, w)
             yield self._zoom_case(rng, m, rng.choice((0, 1, 1, 2, 3)), f"zoom_random_{mk}")
@@ -647,10 +647,13 @@ class C14(PropertyCheck):
         vals = _grid2(case["native"], h, w)
         b = case["buffer"]
         y0, y1, x0, x1 = obs["region"]
-        wy0, wy1, wx0, wx1 = y0 - b, y1 + b, x0 - b, x1 + b
-        if obs["shape"] != [wy1 - wy0, wx1 - wx0]:
-            return False, f"zoomed shape {obs['shape']} != window {[wy1 - wy0, wx1 - wx0]}"
-        z = _grid2(obs["native"], wy1 - wy0, wx1 - wx0)
+        # the window is anchored at (y0 - buffer, x0 - buffer) and has the shape of the returned array
+        zh, zw = obs["shape"]
+        wy0, wx0 = y0 - b, x0 - b
+        wy1, wx1 = wy0 + zh, wx0 + zw
+        if len(obs["native"]) != zh * zw:
+            return False, f"zoomed array has {len(obs['native'])} values for shape {obs['shape']}"
+        z = _grid2(obs["native"], zh, zw)
         for y in range(h):
             for x in range(w):
                 if m[y][x]:
@@ -694,9 +697,11 @@ class C14(PropertyCheck):
                             "C14.crop_is_centred", "C14.embed_is_centred"],
             "util_extract": ["C14.extracted_eq_window"],
             "mask_chain": ["C14.mask_resized_getElem", "C14.mask_shrink_enlarge_identity",
-                           "C14.coordinate_kept_y", "C14.coordinate_kept_x", "C14.pixel_centre_closed_form"],
+                           "C14.coordinate_kept_y", "C14.coordinate_kept_x", "C14.pixel_centre_closed_form",
+                           "C14.resize_keeps_value_and_coordinate"],
             "array_chain": ["C14.array_resized_native", "C14.trim_pad_identity", "C14.trimmed_is_centred_crop",
-                            "C14.array_shrink_enlarge_identity", "C14.padding_keeps_triples"],
+                            "C14.array_shrink_enlarge_identity", "C14.padding_keeps_triples",
+                            "C14.resize_keeps_value_and_coordinate"],
             "mask_trim": ["C14.trimmed_array_from_padded"],
             "apply_mask": ["C14.apply_mask_keeps_triples", "C14.auto_padding_iff",
                            "C14.padding_keeps_triples"],
